@@ -443,7 +443,13 @@ func RunDriver(p Property, o DriverOpts) int {
 			case "distinct_nontrivial":
 				have = int64(distinct)
 			default:
-				have = total.Obs[k]
+				if strings.HasPrefix(k, "class:") {
+					// an outcome class that must have been seen: a workload family that silently stopped running
+					// (an edit that did not apply, a generator that produces nothing) leaves the run inconclusive
+					have = int64(total.Classes[strings.TrimPrefix(k, "class:")])
+				} else {
+					have = total.Obs[k]
+				}
 			}
 			if have < min {
 				inconcl = append(inconcl, fmt.Sprintf("observation floor not reached: %s=%d < %d", k, have, min))
